@@ -319,6 +319,42 @@ export async function run(ctx) {
           await judge(ctx, { files: { "entry.ts": text }, settings: { string_formats: [], number_formats: [] } }, `jsdoc-frame:${shape}`);
         }
   }
+  // one named type with a member the semantic engine refuses (a function, a union alias that mentions
+  // itself, a multi-part template), asked about by two or three different semantic operations of ONE
+  // build: the first refusal must leave nothing behind that the next operation trips over
+  {
+    const refused = [
+      ["fn-member", "{ name: string; run: () => void }"],
+      ["fn-in-tuple", "[string, () => void]"],
+      ["self-union-alias", "{ j: Json; id: string }"],
+      ["fn-in-map", "Map<string, () => void>"],
+      ["fn-in-set", "Set<(x: number) => string>"],
+      ["fn-in-array", "{ hs: Array<() => void>; n: 1 }"],
+      ["template-pair", "{ t: `a${string}b${number}` | `c${number}`; u: 2 }"],
+      ["nested-named", "{ inner: Inner; k: string }"],
+    ];
+    const ops = [
+      ["cond-name", (n) => `${n} extends { name: string } ? true : false`],
+      ["cond-other", (n) => `${n} extends { run: unknown } ? "yes" : "no"`],
+      ["exclude", (n) => `Exclude<${n} | null, null>`],
+      ["keyof", (n) => `keyof ${n}`],
+      ["indexed", (n) => `(${n} | { name: 1 })["name"]`],
+      ["extract", (n) => `Extract<${n} | string, object>`],
+      ["generic", (n) => `IsNamed<${n}>`],
+    ];
+    let k = 0;
+    for (const [rn, body] of refused)
+      for (let a = 0; a < ops.length; a++)
+        for (let b = 0; b < ops.length; b++) {
+          if (a === b) continue;
+          k++;
+          if (k % ctx.of !== ctx.shard) continue;
+          const third = (a + b) % 3 === 0 ? `  C: ${ops[(a + b) % ops.length][1]("H")};\n` : "";
+          const text = `type Json = string | Json[];\ntype Inner = { f: () => void };\ntype IsNamed<T> = T extends { name: string } ? true : false;\ntype H = ${body};\nexport const P = parse.buildParsers<{\n  A: ${ops[a][1]("H")};\n  B: ${ops[b][1]("H")};\n${third}}>();\n`;
+          ctx.count("refused-member-pairs");
+          await judge(ctx, { files: { "entry.ts": text }, settings: { string_formats: [], number_formats: [] } }, `refused-pairs:${rn}/${ops[a][0]}+${ops[b][0]}`);
+        }
+  }
   // every type name of TypeScript's library (those beff knows, and those it may learn) applied to
   // hostile literal arguments: text that starts with a multi-byte character, astral characters,
   // combining marks, the empty string, lone escapes - in 0 to 3 arguments, bare and through aliases
